@@ -263,3 +263,75 @@ Proof.
     (destruct (validateImageBoxRemoteURL p); [|discriminate]);
     (split; [reflexivity|split; [|reflexivity]]); rewrite ?list_eqb_eq in *; auto.
 Qed.
+
+(* ---- histories: every request of a client's lifetime gets the per-dial guarantee *)
+Lemma In_combine_map {A B} (f : A -> B) (l : list A) q o :
+  In (q, o) (combine l (map f l)) -> In q l /\ o = f q.
+Proof.
+  induction l as [|x xs IH]; cbn [map combine In]; [contradiction|].
+  intros [E|H]; [injection E as <- <-; auto|]. destruct (IH H) as [H1 H2]. auto.
+Qed.
+
+Definition answer_bytes (q : dialReq) : Prop :=
+  match rqAnswer q with Some ips => Forall bytes ips | None => True end.
+
+Definition per_dial_guarantee (allowedHost : bool) (q : dialReq) (o : dialOutcome) : Prop :=
+  match o with
+  | DDialled ts c =>
+    exists ips, rqAnswer q = Some ips /\ ips <> [] /\
+      (exists n, ts = firstn n (map dialTarget ips)) /\
+      (forall t, In t ts -> exists a, In a ips /\ t = dialTarget a) /\
+      (allowedHost = false ->
+         (forall a, In a ips -> private_or_local a = false) /\
+         (forall t, In t ts -> private_or_local t = false))
+  | _ => True
+  end /\
+  (allowedHost = false ->
+   (exists ips a, rqAnswer q = Some ips /\ In a ips /\ private_or_local a = true) -> o = DRejected).
+
+Lemma revocationDial_guarantee allowed q :
+  answer_bytes q ->
+  per_dial_guarantee (allowedLookup allowed (normalizeRevocationHost (rqHost q))) q
+    (revocationDial allowed (rqHost q) (rqAnswer q) (rqScript q)).
+Proof.
+  intros HB. unfold answer_bytes in HB. split.
+  - destruct (rqAnswer q) as [ips|] eqn:EA; [|exact I].
+    destruct (revocationDial allowed (rqHost q) (Some ips) (rqScript q)) as [| |ts c] eqn:ED; try exact I.
+    exists ips. split; [reflexivity|]. apply (revocationDial_sound _ _ _ _ _ _ HB ED).
+  - intros NA (ips & a & EA & Ha & Pa). rewrite EA in *.
+    apply revocationDial_all_or_nothing; [exact HB|exact NA|exists a; auto].
+Qed.
+
+Lemma revocationDialHistory_sound allowed reqs :
+  Forall answer_bytes reqs ->
+  forall q o, In (q, o) (combine reqs (revocationDialHistory allowed reqs)) ->
+  per_dial_guarantee (allowedLookup allowed (normalizeRevocationHost (rqHost q))) q o.
+Proof.
+  intros HB q o H. unfold revocationDialHistory in H.
+  apply In_combine_map in H. destruct H as [Hq ->].
+  apply revocationDial_guarantee. rewrite Forall_forall in HB. apply HB. exact Hq.
+Qed.
+
+Lemma imageBoxDial_guarantee q :
+  answer_bytes q -> per_dial_guarantee false q (imageBoxDial (rqAnswer q) (rqScript q)).
+Proof.
+  intros HB. unfold answer_bytes in HB. split.
+  - destruct (rqAnswer q) as [ips|] eqn:EA; [|exact I].
+    destruct (imageBoxDial (Some ips) (rqScript q)) as [| |ts c] eqn:ED; try exact I.
+    destruct (imageBoxDial_sound _ _ _ _ HB ED) as (a0 & rest & -> & -> & V & VT).
+    exists (a0 :: rest). split; [reflexivity|]. split; [discriminate|].
+    split; [exists 1%nat; reflexivity|].
+    split; [intros t [<-|[]]; exists a0; split; [left; reflexivity|reflexivity]|].
+    intros _. split; assumption.
+  - intros _ (ips & a & EA & Ha & Pa). rewrite EA in *.
+    apply imageBoxDial_all_or_nothing; [exact HB|exists a; auto].
+Qed.
+
+Lemma imageBoxDialHistory_sound reqs :
+  Forall answer_bytes reqs ->
+  forall q o, In (q, o) (combine reqs (imageBoxDialHistory reqs)) -> per_dial_guarantee false q o.
+Proof.
+  intros HB q o H. unfold imageBoxDialHistory in H.
+  apply In_combine_map in H. destruct H as [Hq ->].
+  apply imageBoxDial_guarantee. rewrite Forall_forall in HB. apply HB. exact Hq.
+Qed.
